@@ -201,7 +201,7 @@ def gen_inner(rng, b, vars_, size):
         if vars_ and rng.random() < 0.7:
             body.append(N("U" + rng.choice(vars_)))
     else:
-        nsub = 1 if rng.random() < 0.7 or size[0] > 14 else 2
+        nsub = 1 if rng.random() < 0.7 or size[0] >= size[1] else 2
         for _ in range(nsub):
             if rng.random() < 0.3:
                 body.append(filler(rng, True, vars_))
@@ -220,7 +220,7 @@ def gen_outer(rng, a, b, vars_, size):
         dims = rng.choice(["c", "c", "cc", "ccc"]) if k == "s" else rng.choice(["", "", "c", "n"])
         body.append(N("D" + k + dims))
         vars_.append(k)
-    nsub = 1 if rng.random() < 0.6 or size[0] > 14 else rng.choice([2, 2, 3])
+    nsub = 1 if rng.random() < 0.6 or size[0] >= size[1] else rng.choice([2, 2, 3])
     for j in range(nsub):
         if rng.random() < 0.25:
             body.append(filler(rng, False, []))
@@ -228,7 +228,7 @@ def gen_outer(rng, a, b, vars_, size):
             sub = gen_inner(rng, b, vars_, size)
         else:
             sub = gen_outer(rng, a - 1, b, vars_, size)
-        if rng.random() < 0.25 and size[0] < 14:
+        if rng.random() < 0.25 and size[0] < size[1]:
             # both branches of an if with matching nesting
             other = gen_inner(rng, b, vars_, size) if a == 1 else gen_outer(rng, a - 1, b, vars_, size)
             if rng.random() < 0.5:
@@ -244,12 +244,16 @@ def gen_outer(rng, a, b, vars_, size):
 
 def gen_valid_kernel(rng):
     body = []
+    limit = rng.choice([2, 2, 3, 4, 4, 6, 9])       # soft bound on the number of OKL loops before branching stops
+    size = [0, limit]
     for _ in range(rng.choice([1, 1, 1, 2, 2, 3])):
+        if body and size[0] >= limit + 2:
+            break
         a = rng.choice([1, 1, 1, 2, 2, 3])
         b = rng.choice([1, 1, 1, 2, 2, 3])
         if rng.random() < 0.3:
             body.append(filler(rng, False, []))
-        body.append(wrap(rng, gen_outer(rng, a, b, [], [0])))
+        body.append(wrap(rng, gen_outer(rng, a, b, [], size)))
     if rng.random() < 0.2:
         body.append(filler(rng, False, []))
     return N("Kv", body)
@@ -386,10 +390,6 @@ def m_shared(rng, k):
     return "none"
 
 
-def m_second_kernel(rng, k):
-    return "second_kernel"
-
-
 MUTATIONS = [m_return_type, m_no_outer, m_no_inner, m_flip_attr, m_flip_attr, m_extra_loop, m_extra_loop,
              m_drop_loop, m_drop_loop, m_break_continue, m_break_continue, m_break_continue, m_header, m_header,
              m_header, m_shared, m_shared]
@@ -421,7 +421,7 @@ def gen_cases(rng, n):
             m = clone(k)
             f = rng.choice(MUTATIONS)
             tag = f(rng, m)
-            if f is m_second_kernel or rng.random() < 0.06:
+            if rng.random() < 0.06:
                 # a translation unit with a second, untouched valid kernel before or after
                 other = gen_valid_kernel(rng)
                 ks = [other, m] if rng.random() < 0.5 else [m, other]
